@@ -37,6 +37,11 @@ func loadResiduals(c *Ctx, r *core.Result) []*residualEntry {
 	if err != nil {
 		r.Fail("framework", "-", "config/residuals.json", "-", err.Error())
 	}
+	// residuals speak about functions by the names of the pinned tree: follow pure renames
+	for _, re := range cfg.Residuals {
+		re.Func = renameIn(re.Func)
+		re.Expr = renameIn(re.Expr)
+	}
 	return cfg.Residuals
 }
 
